@@ -113,7 +113,12 @@ func c02(r *sim.R) *sim.Violation {
 	nextTS := map[string]int64{}
 	ifaces := []string{"eth0", "eth1"}
 	for i := 0; i < nSess; i++ {
-		s := rawSession{iface: ifaces[r.T.Draw(2)], enc: sim.Pick(r.T, encPool), level: r.T.Draw(13)}
+		// levels: mostly the fast ones (the pure-Go zstd back end is slow at its high levels, and
+		// the level dimension belongs to C07); one session in eight takes any level
+		s := rawSession{iface: ifaces[r.T.Draw(2)], enc: sim.Pick(r.T, encPool), level: []int{0, 1, 3, 6}[r.T.Draw(4)]}
+		if r.T.Chance(1, 8) {
+			s.level = r.T.Draw(13)
+		}
 		ts := nextTS[s.iface]
 		if ts == 0 {
 			ts = base
@@ -147,7 +152,7 @@ func c02(r *sim.R) *sim.Violation {
 	for i := range hist {
 		wo := &hist[i]
 		wo.iface = "flow-" + wo.iface
-		wo.level = r.T.Draw(13)
+		wo.level = []int{0, 1, 3, 6}[r.T.Draw(4)]
 		flowIfaces[wo.iface] = true
 		steps = append(steps, step{wo: wo})
 	}
